@@ -59,6 +59,8 @@ def writer_oracle(case, impl):
         return ("violation", "header encoding refused (%s) with %d distinct atoms" % (impl[8:], len(atoms)))
     if len(atoms) > 255:
         return ("violation", "more than 255 distinct atoms were accepted")
+    if " wrapper:" in impl:
+        return ("violation", "a wrapper entry point disagrees with the one it wraps:" + impl.split(" wrapper:", 1)[1][:60])
     enc, selfdec = impl.split(" ; self=")
     data = bytes.fromhex(enc[4:])
     want = [etf.denote(t) for t in terms]
@@ -205,6 +207,24 @@ def run(ctx):
         wcases.append("hdr " + " | ".join(etf.show(t) for t in gen_terms(rng)))
     impl, _ = ctx.diff_domain("codec", wcases, oracle=writer_oracle, nontrivial=lambda c, i: c if " a " in c else None,
                               classify=lambda c, i: ["op:hdr", "result:" + ("err" if i.startswith("enc=err") else "ok")], compare=lambda c, a, b: True)
+    # histories of writer calls on one thread: what a refused message (too many atoms, an atom too long) leaves behind must
+    # not reach the next message
+    hh = []
+    refused = ["t 1 " + " ".join(["l 300"] + ["a " + (b"atom%03d" % i).hex() for i in range(300)]), "t 2 a 6f6b a " + (b"x" * 65536).hex()]
+    for _ in range(ctx.budget(40, 600)):
+        parts = [" | ".join(etf.show(t) for t in gen_terms(rng)) for _p in range(rng.choice([2, 3, 4]))]
+        parts.insert(rng.randrange(len(parts)), rng.choice(refused))
+        hh.append("hdrh " + " || ".join(parts))
+
+    def hist_oracle(case, impl):
+        if impl.startswith(("PANIC", "CRASH", "TIMEOUT")):
+            return ("violation", "did not return: " + impl[:60])
+        for part, o in zip(case[5:].split(" || "), impl.split(" ;; ")):
+            r = writer_oracle("hdr " + part, o)
+            if r is not None and r[0] == "violation":
+                return ("violation", "in a history of header-writer calls on one thread: " + r[1])
+        return None
+    ctx.diff_domain("codec", hh, oracle=hist_oracle, nontrivial=lambda c, i: c, classify=lambda c, i: ["op:hdrh"], compare=lambda c, a, b: True)
     # the model must reproduce the writer's bytes for the atom order found in them
     chk = []
     for c, a in zip(wcases, impl):
